@@ -118,7 +118,9 @@ def run(ctx):
                     jobj(x if rng.random() < 0.5 else x + 0.125 * (hi - lo > 1), rng.uniform(2, 3)) if not use_bounds else jobj(x, rng.uniform(2, 3))
                     del pts[:]
                     rep['object_reused'] = True
-                J = jobj(x, scale_arg)
+                by_kw = rng.random() < 0.5          # the extra argument goes positionally or by keyword (**kwds is forwarded too)
+                rep['extra_by_keyword'] = by_kw
+                J = jobj(x, s=scale_arg) if by_kw else jobj(x, scale_arg)
                 ctx.keep('nd_scipy.Jacobian', J, **rep)
         except Exception as ex:
             ctx.violation('nd_scipy.Jacobian raised %r' % ex, **rep)
@@ -148,15 +150,22 @@ def run(ctx):
         # Gradient
         if it % 3 == 0:
             shape = rng.choice([(n,), (1, n), (n, 1)])
-            g = lambda t: np.sum(A[0] * np.ravel(t)) + 0.5 * np.sum(np.ravel(t) ** 2)
+            g = lambda t, s=1.0, c=0.0: s * np.sum(A[0] * np.ravel(t)) + 0.5 * np.sum(np.ravel(t) ** 2) + c * np.sum(np.ravel(t))
+            gs, gc = rng.choice([1.0, 1.5, 2.0]), rng.choice([0.0, 0.25, -1.0])
+            how = rng.choice(['none', 'positional', 'keyword', 'both'])
+            ga, gk = {'none': ((), {}), 'positional': ((gs, gc), {}), 'keyword': ((), dict(s=gs, c=gc)), 'both': ((gs,), dict(c=gc))}[how]
+            if how == 'none':
+                gs, gc = 1.0, 0.0
+            rep['gradient_extra'] = [how, gs, gc]
             with warnings.catch_warnings():
                 warnings.simplefilter('ignore')
-                G = nds.Gradient(g, method=meth)(x.reshape(shape))
+                G = nds.Gradient(g, method=meth)(x.reshape(shape), *ga, **gk)
             want_shape = () if n == 1 else (n,)
             if np.shape(G) != want_shape:
                 ctx.violation('nd_scipy.Gradient shape is not (n,) / 0-d', got=list(np.shape(G)), expected=list(want_shape), **rep)
-            elif np.max(np.abs(np.ravel(G) - (A[0] + x))) > (1e-9 if meth == 'complex' else 1e-4) * (1 + np.abs(A[0]).max()):
-                ctx.violation('nd_scipy.Gradient differs from the exact gradient', got=np.ravel(G).tolist(), exact=(A[0] + x).tolist(), **rep)
+            elif np.max(np.abs(np.ravel(G) - (gs * A[0] + x + gc))) > (1e-9 if meth == 'complex' else 1e-4) * (1 + 2 * np.abs(A[0]).max()):
+                ctx.violation('nd_scipy.Gradient differs from the exact gradient (extra arguments forwarded?)', got=np.ravel(G).tolist(),
+                              exact=(gs * A[0] + x + gc).tolist(), **rep)
     ctx.assumptions.append('everything inside scipy.optimize._numdiff.approx_derivative is external: the claim is partial by nature '
                            '(method map, forwarding, squeeze and the cs contract on affine maps are proved; the rest is explored on the real scipy)')
 
